@@ -22,6 +22,7 @@ import (
 	"time"
 
 	"github.com/irai/packet"
+	"github.com/irai/packet/fastlog"
 	"github.com/irai/packet/handlers/icmp_spoofer"
 	"pvharness/lib"
 )
@@ -243,6 +244,7 @@ func main() {
 		// the library prints diagnostics with fmt.Printf on these paths
 		if dn, err := os.OpenFile(os.DevNull, os.O_WRONLY, 0); err == nil {
 			os.Stdout = dn
+			fastlog.DefaultIOWriter = dn
 		}
 	}
 	rng := r.Rand()
